@@ -24,6 +24,10 @@ pub struct ServerProfile {
     /// frames sent right after the last activation completed (auto mode): scripted post-activation traffic
     #[serde(default)]
     pub post_activation: Vec<Vec<u8>>,
+    /// how the deactivate-all of a reactivation round is framed: 0 = alone in its MCS frame; 1 = behind a data PDU the client
+    /// does not parse (save session info); 2 = in front of one; 3 = behind a set-error-info PDU
+    #[serde(default)]
+    pub pack_deactivate: u8,
 }
 
 impl ServerProfile {
@@ -51,6 +55,7 @@ impl ServerProfile {
             activations: vec![DemandActive { share_id, source: b"RDP\0".to_vec(), caps: wire::sample_server_caps(), session_id: 0 }],
             auto: true,
             post_activation: Vec::new(),
+            pack_deactivate: 0,
         }
     }
 }
@@ -489,7 +494,26 @@ impl Server {
                                 // activation complete: next reactivation round or active
                                 self.act_idx += 1;
                                 if self.act_idx < self.profile.activations.len() {
-                                    let f = self.wrap(&wire::deactivate_all(sid, su));
+                                    let dea = wire::deactivate_all(sid, su);
+                                    let mut frame = Built::new();
+                                    match self.profile.pack_deactivate % 4 {
+                                        1 => {
+                                            frame.nest("ssi", &wire::other_data_pdu(sid, su, 0x26, &[0, 0, 0, 0, 0, 0, 0, 0]));
+                                            frame.nest("dea", &dea);
+                                        }
+                                        2 => {
+                                            frame.nest("dea", &dea);
+                                            frame.nest("ssi", &wire::other_data_pdu(sid, su, 0x26, &[0, 0, 0, 0, 0, 0, 0, 0]));
+                                        }
+                                        3 => {
+                                            frame.nest("sei", &wire::set_error_info(sid, su, 0));
+                                            frame.nest("dea", &dea);
+                                        }
+                                        _ => {
+                                            frame.nest("dea", &dea);
+                                        }
+                                    }
+                                    let f = self.wrap(&frame);
                                     self.emit(out, "deactivate-all", f);
                                     let d = self.profile.activations[self.act_idx].clone();
                                     let f = self.pdu_demand_active(&d);
